@@ -19,6 +19,7 @@
 package bfe_spdy
 
 import (
+	"bytes"
 	"compress/zlib"
 	"encoding/binary"
 	"fmt"
@@ -215,6 +216,29 @@ func (f *Framer) parseControlFrame(version uint16, frameType ControlFrameType) (
 	return cframe, nil
 }
 
+// maxHeaderPrealloc is the largest buffer allocated for a header name or
+// value before any of its bytes have been received.
+const maxHeaderPrealloc = 4096
+
+// readHeaderBytes reads exactly length bytes from r, like io.ReadFull.
+// length comes from the wire and may exceed what the frame can deliver, so
+// buffers larger than maxHeaderPrealloc grow with the bytes actually read.
+func readHeaderBytes(r io.Reader, length uint32) ([]byte, error) {
+	if length <= maxHeaderPrealloc {
+		b := make([]byte, length)
+		_, err := io.ReadFull(r, b)
+		return b, err
+	}
+
+	var buf bytes.Buffer
+	buf.Grow(maxHeaderPrealloc)
+	n, err := io.CopyN(&buf, r, int64(length))
+	if err == io.EOF && n > 0 {
+		err = io.ErrUnexpectedEOF
+	}
+	return buf.Bytes(), err
+}
+
 func parseHeaderValueBlock(r io.Reader, streamId StreamId) (http.Header, uint32, error) {
 	headerLen := uint32(0) // length of header decompressed
 
@@ -234,8 +258,8 @@ func parseHeaderValueBlock(r io.Reader, streamId StreamId) (http.Header, uint32,
 			return nil, 0, err
 		}
 		headerLen += length
-		nameBytes := make([]byte, length)
-		if _, err := io.ReadFull(r, nameBytes); err != nil {
+		nameBytes, err := readHeaderBytes(r, length)
+		if err != nil {
 			return nil, 0, err
 		}
 		name := string(nameBytes)
@@ -250,8 +274,8 @@ func parseHeaderValueBlock(r io.Reader, streamId StreamId) (http.Header, uint32,
 			return nil, 0, err
 		}
 		headerLen += length
-		value := make([]byte, length)
-		if _, err := io.ReadFull(r, value); err != nil {
+		value, err := readHeaderBytes(r, length)
+		if err != nil {
 			return nil, 0, err
 		}
 		valueList := strings.Split(string(value), headerValueSeparator)
